@@ -96,6 +96,11 @@ structure WSt where
   gq : List Nat := []          -- scheduler channel: owning chain of each queued closure
   pend : List Pend := []
   stopped : Bool := false
+  parked : Bool := false         -- the consumer sits in a parking closure; `gq` is what waits behind it
+  blocked : Option Nat := none   -- chain whose start `Post` is blocked on the full channel (at most one)
+
+/-- closures of chains (not fillers, id 0) waiting behind the parked consumer, the blocked starter included -/
+def WSt.chainQueued (s : WSt) : Nat := (s.gq.filter (· ≠ 0)).length + (if s.blocked.isSome then 1 else 0)
 
 def showEv (id : Nat) : Waterfall.Ev → String
   | .task i a => s!"t{id}.{i}{showNats a}c"
@@ -119,7 +124,10 @@ def drainW : Nat → WSt → List String → WSt × List String
     match s.gq with
     | [] => (s, out)
     | id :: rest =>
-      let s := { s with gq := rest }
+      -- a receive from the full channel lets the blocked sender's closure in at the tail
+      let s := match s.blocked with
+        | some b => { s with gq := rest ++ [b], blocked := none }
+        | none => { s with gq := rest }
       match s.chains.find? (·.id = id) with
       | none => drainW fuel s out
       | some c =>
@@ -151,11 +159,36 @@ def drainW : Nat → WSt → List String → WSt × List String
 def showOut (out : List String) : String := if out.isEmpty then "-" else " ".intercalate out
 
 def stepW (s : WSt) (ws : List String) : WSt × String :=
+  let cap := Gen.C15.queueSize
   match ws.head? with
+  | some "park" =>
+    if s.parked || s.stopped then (s, "bad-op") else ({ s with parked := true }, "-")
+  | some "fill" =>
+    match kvNat ws "n" with
+    | some n =>
+      if !s.parked || s.chainQueued > 0 || s.gq.length + n > cap then (s, "bad-op")
+      else
+        let s := { s with gq := s.gq ++ List.replicate n 0 }
+        (s, s!"fill={s.gq.length}")
+    | none => (s, "bad-op")
+  | some "unpark" =>
+    if !s.parked then (s, "bad-op")
+    else
+      let (s, out) := drainW 100000 { s with parked := false } []
+      (s, showOut out)
   | some "chain" =>
     match kvNat ws "id", parseTasks ws with
     | some id, some specs =>
-      if s.stopped then (s, "-")   -- Post on the closed channel: recovered, nothing is ever run
+      let frm := (kv ws "from").getD ""
+      if s.parked then
+        -- same admission rule as the harness: no self-post deadlock, at most one blocked sender
+        let room := s.gq.length < cap
+        if frm == "cons" || s.chainQueued ≥ 4 || s.blocked.isSome || (!room && frm != "go") then (s, "bad-op")
+        else
+          let c : WChain := ⟨id, specs, { n := specs.length }⟩
+          let s := { s with chains := s.chains ++ [c] }
+          if room then ({ s with gq := s.gq ++ [id] }, "-") else ({ s with blocked := some id }, "-")
+      else if s.stopped then (s, "-")   -- Post on the closed channel: recovered, nothing is ever run
       else
         let c : WChain := ⟨id, specs, { n := specs.length }⟩
         let s := { s with chains := s.chains ++ [c], gq := s.gq ++ [id] }
@@ -165,6 +198,9 @@ def stepW (s : WSt) (ws : List String) : WSt × String :=
   | some "fire" =>
     match kvNat ws "k" with
     | some k =>
+      if s.parked && (kv ws "via" == some "post" || s.chainQueued ≥ 4 || s.blocked.isSome || s.gq.length ≥ cap) then
+        (s, "bad-op")
+      else
       match s.pend[k]? with
       | none => (s, "-")
       | some p =>
@@ -172,10 +208,11 @@ def stepW (s : WSt) (ws : List String) : WSt × String :=
         | none => (s, "-")
         | some c =>
           let s := complete s c p.task p.err p.res
+          if s.parked then (s, "-") else
           let (s, out) := drainW 100000 s []
           (s, showOut out)
     | none => (s, "bad-op")
-  | some "wstop" => ({ s with stopped := true }, "ok")
+  | some "wstop" => if s.parked then (s, "bad-op") else ({ s with stopped := true }, "ok")
   | _ => (s, "bad-op")
 
 /-! ## scheduler: acceptance of an observation by the model -/
@@ -606,6 +643,7 @@ structure SpecS where
   -- waterfall
   chains : List SpChain := []
   pend : List Pend := []
+  parked : Bool := false
   dead : Bool := false
 
 def SpecS.setPoster (s : SpecS) (q : SpPoster) : SpecS :=
@@ -646,6 +684,8 @@ def viol (sig why : String) : String := s!"VIOLATION C15/{sig} {why}"
 /-- one observed waterfall event -/
 def specWEv (s : SpecS) : WEv → Except String SpecS
   | .task id i args g => do
+    if g.startsWith "!nilcb:" then
+      throw (viol "task-without-callback" s!"task {i} of chain {id} was invoked with a nil callback: it cannot complete")
     if g != "c" then throw (viol "off-scheduler-goroutine" s!"task {i} of chain {id} ran on goroutine {g}")
     match s.chains.find? (·.id = id) with
     | none => throw (viol "task-out-of-order" s!"task of unknown chain {id}")
@@ -700,14 +740,20 @@ def specWEv (s : SpecS) : WEv → Except String SpecS
 
 /-- end of a waterfall op (the bubble is quiescent): every live chain whose invoked tasks all completed exactly once has called final -/
 def specWEnd (s : SpecS) : Except String SpecS := do
-  if s.stopped then return s
+  if s.stopped || s.parked then return s
   for c in s.chains do
     if c.live && c.exactlyOnce && c.finals ≠ 1 then
       throw (viol "final-missing" s!"chain {c.id}: every invoked task completed exactly once, final called {c.finals} times")
   return s
 
 def specW (s : SpecS) (ws : List String) (obs : String) : Except String SpecS := do
+  if obs == "bad-op" then return s   -- the harness refused the op (it would deadlock the scenario); nothing happened
+  if obs == "panic" then
+    throw (viol "caller-crashed" "starting a chain / completing a task panicked in the calling goroutine (tasks must only run inside posted closures)")
   let s ← match ws.head? with
+    | some "park" => pure { s with parked := true }
+    | some "unpark" => pure { s with parked := false }
+    | some "fill" => pure s
     | some "chain" =>
       match kvNat ws "id", parseTasks ws with
       | some id, some specs => pure { s with chains := s.chains ++ [{ id := id, specs := specs, live := !s.stopped }] }
@@ -725,7 +771,7 @@ def specW (s : SpecS) (ws : List String) (obs : String) : Except String SpecS :=
       | none => throw "bad-op"
     | some "wstop" => pure { s with stopped := true }
     | _ => throw "bad-op"
-  if obs == "-" || obs == "ok" then specWEnd s
+  if obs == "-" || obs == "ok" || ws.head? == some "fill" then specWEnd s
   else
     let mut s := s
     for w in words obs do
